@@ -199,6 +199,9 @@ func dhtIterate(nodes []NodeInfo, key []byte, n int, fn func(node NodeInfo) (new
 	if n < 1 {
 		panic(n)
 	}
+	// contacted holds the IDs fn has been called with: a node is never contacted twice,
+	// whatever peer lists the contacted nodes return.
+	contacted := map[p2p.PeerID]struct{}{}
 	for len(nodes) > 0 {
 		// TODO: use a heap
 		slices.SortFunc(nodes, func(a, b NodeInfo) bool {
@@ -209,6 +212,10 @@ func dhtIterate(nodes []NodeInfo, key []byte, n int, fn func(node NodeInfo) (new
 		}
 		var node NodeInfo
 		node, nodes = pop(nodes)
+		if _, yes := contacted[node.ID]; yes {
+			continue
+		}
+		contacted[node.ID] = struct{}{}
 
 		newNodes, cont := fn(node)
 		if !cont {
